@@ -19,7 +19,7 @@ from translate import c15_supercell
 from vlib import core
 from vlib.props import c09 as h09
 
-TARGETS = ["Props/C15.vo"]
+TARGETS = ["Props/C15.vo", "Props/C15_Bridge.vo"]
 ELEMENTS = ["Ni", "Cd", "Se", "O", "Na+", "Cl-"]
 
 
@@ -404,9 +404,11 @@ def run(ctx):
     quick = ctx.tier == "quick"
     with core.BuildLock():
         ok = ctx.regen("c15_supercell", c15_supercell.generate)
+        from translate import lattice as _tl      # Props/C15_Bridge.v is about the setLatPar regenerated from lattice.py
+        ok = ctx.regen("lattice", _tl.generate) and ok
         built = False
         if ok:
-            built, _ = ctx.coq(TARGETS, theorems_in={"Props/C15"})
+            built, _ = ctx.coq(TARGETS, theorems_in={"Props/C15", "Props/C15_Bridge"})
         n = 0
         for _ in range(1 if quick else 6):
             n += run_cases(ctx, 300 if quick else 700, with_model=bool(ok and built))
